@@ -223,6 +223,13 @@ spec fn resolved<'a, const C: usize, const R: usize, T>(layers: Seq<[[Action<'a,
 // runs as a one-shot's inner action.
 // ---------------------------------------------------------------------------------------
 //@ raw
+impl<'a, const C: usize, const R: usize, T: 'a + Copy> Layout<'a, C, R, T> {
+    /// Layout::current_layer (`.iter().rev().find_map(..)`): not under contract; some function of
+    /// the state table and the base layer
+    pub uninterp spec fn cur_layer_spec(&self) -> usize;
+    #[verifier::external_body]
+    fn current_layer(&self) -> (r: usize) ensures r == self.cur_layer_spec() { unimplemented!() }
+}
 spec fn pushed<'a, T>(st: Seq<State<'a, T>>, s: State<'a, T>) -> Seq<State<'a, T>> {
     if st.len() < 64 { st.push(s) } else { st }
 }
